@@ -124,6 +124,8 @@ Relax(gr, st, edges, k) ==
     sorted = <<>>,
     result = <<>>;
   {
+  start:                                       \* DependencySort(txs) is entered
+    skip;
   makeGraph:                                   \* for _, tx := range set
     while (todo # {}) {
       with (t \in todo) {
@@ -168,7 +170,12 @@ Init == (* Global variables *)
         /\ s = <<>>
         /\ sorted = <<>>
         /\ result = <<>>
-        /\ pc = "makeGraph"
+        /\ pc = "start"
+
+start == /\ pc = "start"
+         /\ TRUE
+         /\ pc' = "makeGraph"
+         /\ UNCHANGED << gn, gm, gfm, g, graph, todo, s, sorted, result >>
 
 makeGraph == /\ pc = "makeGraph"
              /\ IF todo # {}
@@ -211,7 +218,7 @@ kahn == /\ pc = "kahn"
 (* Allow infinite stuttering to prevent deadlock on termination. *)
 Terminating == pc = "Done" /\ UNCHANGED vars
 
-Next == makeGraph \/ graphRoots \/ shortcut \/ kahn
+Next == start \/ makeGraph \/ graphRoots \/ shortcut \/ kahn
            \/ Terminating
 
 Spec == /\ Init /\ [][Next]_vars
@@ -232,8 +239,9 @@ IsValidOrder(gg, q) ==
     /\ {q[k] : k \in 1..Len(q)} = 1..gg.n
     /\ \A j \in 1..gg.n : \A p \in Parents(gg, j) : Pos(q, p) < Pos(q, j)
 
+PermsOf == [n \in 0..MaxN |-> Perms(1..n)]      \* evaluated once
 ValidOrders(gg) ==
-    {q \in Perms(1..gg.n) : \A j \in 1..gg.n : \A p \in Parents(gg, j) : Pos(q, p) < Pos(q, j)}
+    {q \in PermsOf[gg.n] : \A j \in 1..gg.n : \A p \in Parents(gg, j) : Pos(q, p) < Pos(q, j)}
 
 ParentsFirstEachOnce == pc = "Done" => IsValidOrder(g, result)
 
@@ -247,7 +255,8 @@ Sane ==
 (* decreases a natural number; the quick configuration also checks the     *)
 (* temporal formula Termination of the translation under weak fairness.    *)
 Measure ==
-    CASE pc = "makeGraph"  -> 3 * (MaxN + 2) + Cardinality(todo)
+    CASE pc = "start"      -> 4 * (MaxN + 2)
+      [] pc = "makeGraph"  -> 3 * (MaxN + 2) + Cardinality(todo)
       [] pc = "graphRoots" -> 2 * (MaxN + 2) + 1
       [] pc = "shortcut"   -> 2 * (MaxN + 2)
       [] pc = "kahn"       -> (MaxN + 1) - Len(sorted)
@@ -258,7 +267,8 @@ Progress   == [][Measure' < Measure]_vars
 Inv == ParentsFirstEachOnce /\ Sane /\ MeasureNat
 
 ----------------------------------------------------------------------------
-(* Export: one TRACE line per transaction set, printed in its initial state *)
+(* Export: one TRACE line per transaction set, printed in the state after    *)
+(* the entry step (a non-initial state, so that TLC's workers share the job) *)
 CaseOf(gg) == [n |-> gg.n, fm |-> gg.fm, ins |-> gg.ins,
                nvalid |-> Cardinality(ValidOrders(gg)), valid |-> ValidOrders(gg)]
 EmitCase ==
